@@ -40,6 +40,7 @@ From V Require Import Proto.TakeUntilDefs.
 From V Require Import Proto.StopImmediatelyDefs.
 From V Require Import Proto.IoCancelDefs.
 From V Require Import Calc.Calc2Defs.
+From V Require Import Proto.UringOpDefs.
 Extraction Blacklist List String Int.
 Cd "../ocaml".
 Extraction "model.ml"
@@ -247,5 +248,9 @@ Extraction "model.ml"
   Calc2.wsa_via
   Calc2.just_from
   Calc2.defer
+  UringOp.step
+  UringOp.init
+  UringOp.parked_ok
+  UringOp.spinning
   (*END*).
 Cd "../coq".
